@@ -1,7 +1,9 @@
 // C07 harness: drives the real LeastSquares<double> / LeastSquares<float> through the line protocol
 // documented in lean/Drivers/C07.lean.  Lines that the C++ could only answer with undefined behaviour
-// (indices outside the buffers, estimate size above the allocated column count, estimate size 0) are
-// rejected as bad-op, exactly as the model driver does.
+// (indices outside the buffers, estimate size 0) are rejected as bad-op, exactly as the model driver does.
+// Since the repair of setEstimateSize (186525a) an allocated design matrix always has estimateSize_ columns; the
+// harness still checks this before touching J_ and answers `shape-mismatch ...` instead of running into a heap
+// overflow, so that a regression shows up as a clean outcome (the model never produces that token).
 #include <memory>
 #include "proto.hpp"
 #include "romea_core_common/regression/leastsquares/LeastSquares.hpp"
@@ -35,9 +37,16 @@ struct Solver
     return false;
   }
 
-  bool shapeOk() const
+  bool shapeOk() const { return est >= 1 && n <= ls->getY().rows(); }
+
+  // empty when J_ has the shape the solver is about to assume, else the outcome token
+  std::string shapeMismatch() const
   {
-    return est >= 1 && (n == 0 || est <= ls->getJ().cols()) && n <= ls->getY().rows();
+    if (ls->getY().rows() > 0 && (ls->getJ().cols() != est || ls->getJ().rows() != ls->getY().rows())) {
+      return "shape-mismatch J=" + std::to_string(ls->getJ().rows()) + "x" + std::to_string(ls->getJ().cols()) +
+             " Y=" + std::to_string(ls->getY().rows()) + " est=" + std::to_string(est);
+    }
+    return "";
   }
 
   static std::string fmtVec(const char * tag, const typename LeastSquares<T>::Vector & v)
@@ -61,8 +70,10 @@ struct Solver
     if (op == "ls.row" && t.size() >= 2) {
       uint64_t i = vp::parseU(t[1]);
       std::vector<T> v; for (size_t k = 2; k < t.size(); ++k) { v.push_back(vp::parseF<T>(t[k])); }
-      if (est == 0 || v.size() != static_cast<size_t>(est) + 1 || static_cast<long long>(i) >= ls->getY().rows() ||
-        est > ls->getJ().cols()) { throw vp::BadOp(); }
+      if (est == 0 || v.size() != static_cast<size_t>(est) + 1 || static_cast<long long>(i) >= ls->getY().rows()) {
+        throw vp::BadOp();
+      }
+      if (!shapeMismatch().empty()) { return shapeMismatch(); }
       auto & J = ls->getJ(); auto & Y = ls->getY();
       for (int c = 0; c < est; ++c) { J(static_cast<int>(i), c) = v[c]; }
       Y(static_cast<int>(i)) = v[est];
@@ -83,11 +94,13 @@ struct Solver
       else { ls->setPreconditionner(A); }
       return "ok";
     }
-    if (op == "ls.svd" && t.size() == 1) { if (!shapeOk()) { throw vp::BadOp(); } return fmtVec("x", ls->estimateUsingSVD()); }
-    if (op == "ls.chol" && t.size() == 1) {
-      if (!shapeOk()) { throw vp::BadOp(); } return fmtVec("x", ls->estimateUsingCholeskyDecomposition());
+    if ((op == "ls.svd" || op == "ls.chol" || op == "ls.wls") && t.size() == 1) {
+      if (!shapeOk()) { throw vp::BadOp(); }
+      if (!shapeMismatch().empty()) { return shapeMismatch(); }
+      if (op == "ls.svd") { return fmtVec("x", ls->estimateUsingSVD()); }
+      if (op == "ls.chol") { return fmtVec("x", ls->estimateUsingCholeskyDecomposition()); }
+      return fmtVec("x", ls->weightedEstimate());
     }
-    if (op == "ls.wls" && t.size() == 1) { if (!shapeOk()) { throw vp::BadOp(); } return fmtVec("x", ls->weightedEstimate()); }
     if (op == "ls.cov" && t.size() == 2) {
       T var = vp::parseF<T>(t[1]); if (est == 0) { throw vp::BadOp(); }
       typename LeastSquares<T>::Matrix P = ls->computeEstimateCovariance(var);
@@ -97,7 +110,8 @@ struct Solver
     }
     if (op == "ls.peek" && t.size() == 2) {
       uint64_t i = vp::parseU(t[1]);
-      if (est == 0 || static_cast<long long>(i) >= ls->getY().rows() || est > ls->getJ().cols()) { throw vp::BadOp(); }
+      if (est == 0 || static_cast<long long>(i) >= ls->getY().rows()) { throw vp::BadOp(); }
+      if (!shapeMismatch().empty()) { return shapeMismatch(); }
       std::string o = "row";
       for (int c = 0; c < est; ++c) { o += " " + vp::fmtF(ls->getJ()(static_cast<int>(i), c)); }
       o += " " + vp::fmtF(ls->getY()(static_cast<int>(i))) + " " + vp::fmtF(ls->getW()(static_cast<int>(i)));
